@@ -91,6 +91,12 @@ type Result struct {
 	Msg      string
 	Stats    Stats
 	Failures []Failure // collect mode: all failures
+	// When the hint policy substituted outputs: did the (first) failure happen while the
+	// function that issued the substituted hint was still on the stack, and how many hints
+	// had been issued by then.
+	Substituted bool
+	InScope     bool
+	FailSeq     uint64
 }
 
 func (r Result) String() string {
@@ -114,6 +120,10 @@ type Engine struct {
 	st       Stats
 	failures []Failure
 	hintSeq  uint64
+	scope    []uintptr // stack of the substituted NewHint call (innermost first)
+	failSeen bool
+	inScope  bool
+	failSeq  uint64
 	sh       *shadowState
 	zero     *V
 	one      *V
@@ -195,6 +205,8 @@ func Run(opt Options, define func(api frontend.API) error) (res Result) {
 	defer func() {
 		res.Stats = e.st
 		res.Failures = e.failures
+		res.Substituted = e.scope != nil
+		res.InScope, res.FailSeq = e.inScope, e.failSeq
 		if rec := recover(); rec != nil {
 			if rs, ok := rec.(rejectSignal); ok {
 				res.Verdict = Reject
@@ -306,7 +318,43 @@ func repoSite(skip, depth int) string {
 	return strings.Join(parts, "<")
 }
 
+// captureStack returns the return PCs above skip.
+func captureStack(skip int) []uintptr {
+	pcs := make([]uintptr, 64)
+	n := runtime.Callers(skip, pcs)
+	return pcs[:n]
+}
+
+func funcEntry(pc uintptr) uintptr {
+	if f := runtime.FuncForPC(pc - 1); f != nil {
+		return f.Entry()
+	}
+	return 0
+}
+
+// scopeCheck: is the function that issued the substituted hint still on the stack, with
+// the same chain of callers?
+func (e *Engine) scopeCheck() bool {
+	cur := captureStack(2)
+	sc := e.scope
+	if len(cur) < len(sc) {
+		return false
+	}
+	off := len(cur) - len(sc)
+	for i := 1; i < len(sc); i++ {
+		if cur[off+i] != sc[i] {
+			return false
+		}
+	}
+	return funcEntry(cur[off]) == funcEntry(sc[0])
+}
+
 func (e *Engine) fail(kind, msg string) {
+	if e.scope != nil && !e.failSeen {
+		e.failSeen = true
+		e.inScope = e.scopeCheck()
+		e.failSeq = e.hintSeq
+	}
 	f := Failure{Kind: kind, Site: repoSite(3, 4), Msg: trunc(msg, 200)}
 	if e.opt.Collect {
 		e.failures = append(e.failures, f)
